@@ -33,7 +33,7 @@ ASSUMPTIONS = [
 FLOORS = {"quick": {"valid_v2s": 1500, "valid_s2v": 1200, "h_nontrivial": 200, "two_viewers": 100,
                     "fault:frag": 20, "fault:rsv": 20, "fault:atyp": 20, "fault:short": 20, "fault:unknown_host": 20,
                     "fault:no_circuit": 20, "fault:presession": 20, "fault:banned_in": 20, "fault:truncated": 8,
-                    "fault:bitflip": 8, "fault:unknown_msgnum": 10, "fault:acks_eat_body": 10, "fault:foreign_ucc": 10, "fault:foreign_socks": 10, "fault:replay_ucc": 5, "fault:sim_first": 20, "fault:nonsocks": 20,
+                    "fault:bitflip": 8, "fault:unknown_msgnum": 10, "fault:acks_eat_body": 4, "fault:foreign_ucc": 10, "fault:foreign_socks": 10, "fault:replay_ucc": 5, "fault:sim_first": 20, "fault:nonsocks": 20,
                     "fault:atyp3": 20, "fault:unregistered": 20}}
 MANIFEST = {
     "text": "Generated multi-session datagram histories with interleaved faults through the real proxy protocol stack; every "
@@ -472,7 +472,9 @@ def _events(nv, nr):
         st.tuples(st.just("v2s"), vs, rs, v2s_case), st.tuples(st.just("v2s"), vs, rs, v2s_case),
         st.tuples(st.just("s2v"), vs, rs, s2v_case), st.tuples(st.just("s2v"), vs, rs, s2v_case),
         # a circuit-opening request travelling the other way is a message like any other
-        st.tuples(st.just("s2v"), vs, rs, gt.message_case(names=["UseCircuitCode"], **small)),
+        st.tuples(st.just("s2v"), vs, rs, gt.message_case(names=["UseCircuitCode", "RegionHandshake"], **small)),
+        # names that are served over HTTP these days are refused when they come in over UDP - going out they are ordinary traffic
+        st.tuples(st.just("v2s"), vs, rs, banned_case),
         st.tuples(st.just("close"), vs, rs, st.booleans()),
         st.tuples(st.just("disconnect"), vs),
         st.tuples(st.just("fault"), st.sampled_from(kinds), vs, rs, v2s_case, st.integers(0, 10000)),
